@@ -308,6 +308,19 @@ Section Hist.
   Definition lbop1 (mask : list bool) (b : bop) (g r : list V) : list V := zero_fill_row mask (map2 (bop_fn b) g r).
   Definition lset1_1 (mask : list bool) (k : nat) (v : V) (g : list V) : list V := set_unmasked_row mask g k v.
   Definition lset2_1 (mask : list bool) (x : nat) (v : V) (g : list V) : list V := if nth x mask true then g else upd_at g x (fun _ => v).
+  (* the class whose state is the logical content of a 1-D array *)
+  Definition class_log1 (mask : list bool) (sc sc_read : V) : hclass (list V) V obs1T :=
+    mkhclass _ _ _
+      (fun o g => FOk (lop1 mask o g))
+      (fun b g r => FOk (lbop1 mask b g r))
+      (fun g => FOk g) (fun g => FOk g)
+      (fun k v g => FOk (lset1_1 mask k v g))
+      (fun y x v g => FOk (lset2_1 mask x v g))
+      (fun g => FOk g)
+      (fun flip g => FOk (hdu_for_output_from_1d g (pixel_scale_header [sc])))
+      (fun flip fs g p ow => FOk (numpy_array_1d_to_fits fs g p ow (pixel_scale_header [sc])))
+      (fun flip h => observe1h_g (Array1D_from_primary_hdu h))
+      (fun flip fs p k => observe1_g (Array1D_from_fits fs p sc_read k)).
   (* no observation produced by a history is an exception of a step *)
   Definition no_err {X R} (l : list (obsv X R)) : bool := forallb (fun o => match o with OErr _ => false | _ => true end) l.
 End Hist.
